@@ -475,6 +475,53 @@ def rule_D_calls(toks, au, names):
     return out
 
 
+# ------------------------------------------------------------------ rule A (tasks whose handle is awaited)
+def rule_A_spawn_expr(toks, au):
+    """EXPRESSION  tokio::spawn(async move { B })   or   tokio::spawn({ let X = Arc::clone(&X); .. async move { B } })
+         ->   vx_spawned({ B })
+    i.e. the task's body is executed at the spawn point and the expression denotes what AWAITING its JoinHandle yields
+    (Ok(value of B); shim).  The `let X = Arc::clone(&X);` prelude (same name on both sides: another handle on the same object) is
+    dropped.  What is lost: the task runs concurrently with the spawner, and it goes on running when the spawner stops waiting for it -
+    which is the point of spawning it (the shim records `Effect::OwnTask`, so that an obligation can demand it)."""
+    i = 0
+    while i < len(toks):
+        if is_id(toks[i], "tokio") and texts(toks, i + 1, 4) == [":", ":", "spawn", "("] and not _stmt_pos(toks[:i]):
+            close = match_close(toks, i + 4)
+            j = i + 5
+            inner_close = None
+            if is_p(toks[j], "{"):
+                inner_close = match_close(toks, j)
+                if inner_close != close - 1:
+                    i += 1
+                    continue
+                j += 1
+                # prelude: let X = Arc::clone(&X);
+                while is_id(toks[j], "let") and toks[j + 1].kind == "id" and texts(toks, j + 2, 7) == ["=", "Arc", ":", ":", "clone", "(", "&"] \
+                        and toks[j + 9].text == toks[j + 1].text and texts(toks, j + 10, 2) == [")", ";"]:
+                    j += 12
+            if not is_id(toks[j], "async"):
+                i += 1
+                continue
+            j += 1
+            if is_id(toks[j], "move"):
+                j += 1
+            if not is_p(toks[j], "{"):
+                i += 1
+                continue
+            bclose = match_close(toks, j)
+            if bclose != (inner_close - 1 if inner_close is not None else close - 1):
+                i += 1
+                continue
+            body = toks[j:bclose + 1]
+            au.note("A", "tokio::spawn(async move { B }) as an awaited expression -> vx_spawned({ B })")
+            new = [Tok("id", "vx_spawned", toks[i].ws), Tok("p", "(", "")] + [t.copy() for t in body] + [Tok("p", ")", "")]
+            toks[i:close + 1] = new
+            i += len(new)
+            continue
+        i += 1
+    return toks
+
+
 # ------------------------------------------------------------------ rule A (detached tasks)
 def rule_A_spawn(toks, au):
     """tokio::spawn(async move { B }[.instrument(S)]);   as a statement whose JoinHandle is discarded
